@@ -389,12 +389,15 @@ def d6_archive_copy(ctx):
         src = a.args[0] if a.args else get_arg(a, None, 'name')
         arc = get_arg(a, 1, 'arcname')
         pv = ctx.E.pathval(src, f) if src is not None else None
+        rec = get_arg(a, 2, 'recursive')
         if pv is not None and pv.name is None and pv.base[0] == 'dir' and arc is not None and \
-                isinstance(arc, ast.Attribute) and arc.attr == 'name' and norm(arc.value) == norm(src):
+                isinstance(arc, ast.Attribute) and arc.attr == 'name' and norm(arc.value) == norm(src) and \
+                (rec is None or (isinstance(rec, ast.Constant) and rec.value is True)):
             ok = True
     ctx.decide(ok, 'R-FLOW', 'D6', f, adds[0] if adds else None, 'whole-dir-under-own-name',
                'archive adds the whole array directory under its own name',
-               detail='tf.add does not add self.path with arcname=self.path.name')
+               detail='tf.add does not add self.path recursively with arcname=self.path.name (sub-directories such as '
+                      'values/ and indices/ of a ragged array would be archived empty)')
     # DataDir.copy
     f = ctx.repo.func('DataDir.copy')
     for e in ctx.E.primitives(f):
